@@ -7,6 +7,7 @@ import (
 	"encoding/json"
 	"errors"
 	"fmt"
+	standardwalletmanager "github.com/attestantio/dirk/services/walletmanager/standard"
 	"github.com/google/uuid"
 	"os"
 	"path/filepath"
@@ -93,6 +94,7 @@ type world struct {
 	cops      []cop
 	parks     []*park
 	yieldSign bool // concurrent runs: yield at sign.enter (steering)
+	walletMgr *standardwalletmanager.Service
 }
 
 var (
